@@ -547,4 +547,9 @@ theorem fn_interval_union_ltl (I : Ivs) :
     call (α := α) Gen.Expl.ltl_interval_union [] [encI I] = .ok ([], encI (unionIvs I)) :=
   fn_interval_union I
 
+/-- Every function of the two `explanations.py` modules lies inside the translated subset. -/
+theorem genExpl_supported :
+    (Gen.Expl.ltlFuncs ++ Gen.Expl.stlFuncs).all (fun p => p.2.supported) = true := by
+  decide
+
 end Rtamt.Py
